@@ -10,6 +10,8 @@ use white_whale_std::whale_lair as lm;
 
 const FUNDS: u128 = 1u128 << 100;
 const DENOMS: [&str; 2] = ["ampWHALE", "bWHALE"];
+/// native denoms that merely look like a whitelisted one (case variants, prefixes, suffixes, wrapped forms)
+const LOOKALIKES: [&str; 10] = ["ampwhale", "AMPWHALE", "bwhale", "BWHALE", "ampWHALE2", "xbWHALE", "ampWHAL", "factory/creator/ampWHALE", "ibc/bWHALE", "ampWHALE/bWHALE"];
 
 #[derive(Clone, Debug)]
 struct Rec {
@@ -49,7 +51,7 @@ fn build(r: &mut Rng) -> LairWorld {
     let users: Vec<Addr> = vec![Addr::unchecked("user0"), Addr::unchecked("user1"), Addr::unchecked("user2"), Addr::unchecked("attacker")];
     let mut balances = vec![];
     for u in users.iter().chain(std::iter::once(&owner)) {
-        balances.push((u.clone(), vec![coin(FUNDS, DENOMS[0]), coin(FUNDS, DENOMS[1]), coin(FUNDS, "uwhale"), coin(FUNDS, "notlisted")]));
+        balances.push((u.clone(), vec![coin(FUNDS, DENOMS[0]), coin(FUNDS, DENOMS[1]), coin(FUNDS, "uwhale"), coin(FUNDS, "notlisted")].into_iter().chain(LOOKALIKES.iter().map(|d| coin(FUNDS, *d))).collect()));
     }
     let mut app = new_app(balances);
     let period = *r.pick(&[1u64, 1_000, 60_000_000_000, 3_600_000_000_000, DAY_NS + DAY_NS / 2, 3 * DAY_NS]);
@@ -210,8 +212,13 @@ pub fn run_history(acc: &mut Acc, r: &mut Rng, steps: u64) {
         } else if op < 40 {
             // B3: invalid bonds must be rejected
             let amount = r.range128(1, 1_000_000);
-            let (a, funds, kind): (Asset, Vec<Coin>, &str) = match r.below(7) {
+            let (a, funds, kind): (Asset, Vec<Coin>, &str) = match r.below(9) {
                 6 => (asset(d, amount), vec![coin(amount, DENOMS[1 - di])], "declared-one-listed-denom-sent-the-other"),
+                7 => {
+                    let l = *r.pick(&LOOKALIKES);
+                    (asset(l, amount), vec![coin(amount, l)], "look-alike-of-a-whitelisted-denom")
+                }
+                8 => (asset(d, amount), vec![coin(amount, *r.pick(&LOOKALIKES))], "declared-listed-sent-look-alike"),
                 0 => (asset("notlisted", amount), vec![coin(amount, "notlisted")], "non-whitelisted-denom"),
                 1 => (Asset { info: AssetInfo::Token { contract_addr: "contract0".into() }, amount: Uint128::new(amount) }, vec![], "cw20-asset"),
                 2 => (asset(d, amount), vec![coin(amount + 1, d)], "amount-mismatch"),
